@@ -158,7 +158,7 @@ fn run<B: StarkField, E: FieldElement<BaseField = B>>(field: &str, deg: usize, c
                 let s: E = rand_elem::<B, E>(&mut rng, true);
                 let mut vals: Vec<E> = (0..n).map(|_| rand_elem::<B, E>(&mut rng, true)).collect();
                 match c.zeros {
-                    1 => {
+                    1 if n > 0 => {
                         vals[0] = E::ZERO;
                         vals[n - 1] = E::ZERO;
                     },
